@@ -376,11 +376,11 @@ def rule_r6(prog, res):
     for lp in loops:
         guardspec.check(
             res, 'R6', f, lp, 'registration of the declared subclasses',
-            allowed=[('_.get_type_name() is _.Empty', False),
-                     ('_ in _.classes', False), ('_ is None', False),
-                     ('_.has_class(_)', False),
-                     ('issubclass(_, ComplexModelBase)', True),
-                     ('_.Attributes._subclasses is None', False)],
+            allowed=[('cls.get_type_name() is cls.Empty', False),
+                     ('class_key in self.classes', False),
+                     ('ns is None', False), ('self.has_class(cls)', False),
+                     ('issubclass(cls, ComplexModelBase)', True),
+                     ('cls.Attributes._subclasses is None', False)],
             key='Interface.add_class|subclasses')
 
 
